@@ -555,7 +555,9 @@ func funcHasFailedObligation(r *FuncReport) bool {
 
 func funcHasContractError(r *FuncReport) bool {
 	for _, o := range r.Obligations {
-		if o.Status == "error" {
+		// (a site clause whose selector names no instruction is undecided by itself; it
+		// feeds nothing into the other obligations of the function, which still decide)
+		if o.Status == "error" && !strings.Contains(o.Detail, "matches no instruction of the function") {
 			return true
 		}
 	}
